@@ -2,8 +2,10 @@
 
 MAX_PAR = 10
 TIER_CAPS = {
-    "quick": {"cap_s": 600, "mem_gb": 20},
-    "thorough": {"cap_s": 3600, "mem_gb": 30},
+    # a quick check must finish well inside 900 s wall (vp check stops it there): every quick
+    # obligation is one that was measured at <= ~400 s standalone; anything slower is thorough-only
+    "quick": {"cap_s": 660, "mem_gb": 20},
+    "thorough": {"cap_s": 3600, "mem_gb": 32},
 }
 
 BASE_STUBS = [
@@ -27,33 +29,43 @@ def c07():
     for name, claim, q, t in [
         ("leaf_positions_follow_append_rule", "insertion_to_pmmr_index obeys pos(0)=0, pos(n+1)=pos(n)+1+tz(n+1) (append rule, base+step => every n)", 62, 62),
         ("height_by_append_rule", "height/is_leaf/leaf index/n_leaves/round_up agree with the append rule for every position", 16, 24),
-        ("family_matches_tree", "family/is_left_sibling agree with the explicit tree (right child iff next position is the parent)", 16, 24),
-        ("family_is_symmetric", "family(sibling) == (parent, self)", 16, 24),
-        ("subtree_ranges", "bintree_leftmost/rightmost/range and leaf counts of a subtree", 16, 24),
-        ("peaks_decompose_size", "peaks() = strictly shrinking perfect trees covering exactly the mmr; empty iff size invalid", 16, 24),
-        ("family_branch_is_iterated_family", "family_branch entries are iterated family() inside the mmr", 12, 16),
-        ("family_branch_is_maximal", "family_branch stops only when the next parent leaves the mmr", 12, 16),
+        ("family_matches_tree", "family/is_left_sibling agree with the explicit tree (right child iff next position is the parent)", 14, 24),
+        ("family_is_symmetric", "family(sibling) == (parent, self)", 14, 24),
+        ("subtree_ranges", "bintree_leftmost/rightmost/range and leaf counts of a subtree", 12, 20),
+        ("peaks_decompose_size", "peaks() = strictly shrinking perfect trees covering exactly the mmr; empty iff size invalid", 8, 16),
+        ("family_branch_is_iterated_family", "family_branch entries are iterated family() inside the mmr", 10, 16),
+        ("family_branch_is_maximal", "family_branch stops only when the next parent leaves the mmr", 10, 16),
     ]:
-        obs.append(ob("c07a::" + name, "q", 66, claim, W % q, env={"VH_LIMBITS": q}))
-        obs.append(ob("c07a::" + name, "t", 66, claim, W % t, env={"VH_LIMBITS": t}, est=600))
-    HL = {"memcmp": 40, "compress": 42}
+        obs.append(ob("c07a::" + name, "q", 66, claim, W % q, env={"VH_LIMBITS": q}, tag="_w%d" % q, est=200))
+        if t != q:
+            obs.append(ob("c07a::" + name, "t", 66, claim, W % t, env={"VH_LIMBITS": t}, tag="_w%d" % t, est=1500))
+    HL = {"memcmp": 40, "compress": 66}
     for n, tiers in [(2, "qt"), (3, "qt"), (4, "t"), (5, "t")]:
         obs.append(ob("c07b::construction_equals_definition", tiers, 8,
-                      "PMMR::push/root/get_hash/validate over VecBackend equal the defining construction (leaf hash over position+data, parent over position+children, peaks bagged right to left with the size); merkle_proof for every leaf verifies",
-                      "%d leaves with symbolic 32-bit contents, symbolic probe position and leaf index" % n,
-                      env={"VH_NLEAF": n}, tag="_n%d" % n, est=120 * n, loops=HL, cap_s=900 if "q" in tiers else 3600))
-        obs.append(ob("c07b::merkle_proof_sound", tiers if n < 3 else "t", 8,
-                      "under the ideal hash: other element / other position / altered path hash / shortened / lengthened path never verify",
-                      "%d leaves, symbolic leaf index and corruption" % n,
-                      env={"VH_NLEAF": n}, tag="_n%d" % n, est=200 * n, loops=HL, replay="model", cap_s=900 if "q" in tiers else 3600))
+                      "PMMR::push/root/get_hash/validate over VecBackend equal the defining construction (leaf hash over position+data, parent over position+children, peaks bagged right to left with the size)",
+                      "%d leaves with symbolic 32-bit contents; every position checked" % n,
+                      env={"VH_NLEAF": n}, tag="_n%d" % n, est=100 * n, loops=HL))
+        obs.append(ob("c07b::honest_proofs_verify", tiers, 8,
+                      "merkle_proof for every leaf exists and verifies against the root for that element at that position; no proof for a parent position",
+                      "%d leaves with symbolic contents, every leaf" % n,
+                      env={"VH_NLEAF": n}, tag="_n%d" % n, est=120 * n, loops=HL))
+        obs.append(ob("c07b::accepted_proofs_consume_their_path", tiers, 8,
+                      "shortened / lengthened paths: whenever a proof with m path hashes verifies, exactly m+1 hashes were computed (no early acceptance, no skipped element) - needs no hash assumption",
+                      "%d leaves, every leaf, honest proof with an arbitrary hash appended / prepended or an end removed" % n,
+                      env={"VH_NLEAF": n}, tag="_n%d" % n, est=150 * n, loops=HL, replay="model"))
+    for n, leaf, kind in [(2, 1, 1), (2, 1, 2), (2, 1, 3), (3, 2, 1), (3, 2, 3)]:
+        obs.append(ob("c07b::merkle_proof_sound", "t", 8,
+                      "under the ideal hash: other element (kind 1) / other position (2) / altered path hash (3) never verify  [thorough-tier ATTEMPT: did not finish in 30 min at 3 leaves]",
+                      "%d leaves, leaf %d, corruption kind %d" % (n, leaf, kind),
+                      env={"VH_NLEAF": n, "VH_LEAF": leaf, "VH_KIND": kind}, tag="_n%d_l%d_k%d" % (n, leaf, kind), est=3000, loops=HL, replay="model"))
     return {
         "obligations": obs,
-        "stubs": BASE_STUBS + ["E4a Blake2b::compress -> cheap deterministic mixer (completeness harnesses)",
-                               "E4b Blake2b::compress -> ideal hash / intern table of 40 entries (soundness harnesses): collision freedom is an explicit assumption",
+        "stubs": BASE_STUBS + ["E4a Blake2b::compress -> cheap deterministic mixer + call counter (completeness and path-consumption harnesses)",
+                               "E4b Blake2b::compress -> ideal hash in Ackermann form (thorough soundness attempts): collision freedom is an explicit assumption",
                                "E3 RandomState::new -> fixed keys (VecBackend holds an always-empty HashSet)"],
         "explanation": "Bounded proof by Kani/CBMC over the compiled grin_core::core::pmmr functions; inputs are symbolic u64.",
         "bounds": "see per-obligation bounds; all loops fully unwound (unwind 66 >= 64-bit descent + 1), unwinding assertions on",
-        "outside": "PMMRBackend-backed MMRs (C08)",
+        "outside": "PMMRBackend-backed MMRs (C08); soundness against substituted element / position / altered hash is a thorough-tier attempt only",
         "assumptions": [],
     }
 
@@ -72,33 +84,38 @@ def c11():
         ("merkle_proof_from_hex_ascii_32", "MerkleProof::from_hex on any 32 ASCII characters: no panic, bounded allocation", "32 symbolic ASCII bytes", 36),
         ("util_from_hex_utf8_4", "util::from_hex on any valid UTF-8 string of 4 bytes: no panic", "4 symbolic bytes, assumed valid UTF-8", 8),
     ]:
-        obs.append(ob("c11::" + h, "qt", u, claim, b,
+        obs.append(ob("c11::" + h, "t" if "from_hex" in h else "qt", u, claim, b, cap_s=3600 if "from_hex" in h else None,
                       allow_unsat=["some input is refused"] if h == "segment_identifier_read_9" else []))
+        if obs[-1]["cap_s"] is None:
+            del obs[-1]["cap_s"]
     for h, L, u, extra in [
         ("txkernel_read_114", 114, 8, {}),
         ("txkernel_read_60", 60, 8, {}),
         ("rangeproof_read_24", 24, 8, {}),
-        ("rangeproof_read_length_boundaries", 691, 12, {"cap_s": 1500, "est": 300}),
-        ("transaction_body_read_64", 64, 8, {}),
-        ("pow_proof_read_edge_bits_sweep", 72, 12, {"est": 200}),
-        ("p2p_hand_read_96", 96, 12, {}),
-        ("p2p_shake_read_64", 64, 8, {}),
-        ("p2p_peer_addrs_read_48", 48, 12, {}),
+        ("transaction_body_read_64", 64, 8, {"tiers": "t", "cap_s": 3600, "est": 1500}),
+        ("pow_proof_read_edge_bits_sweep", 72, 12, {"tiers": "t", "cap_s": 3600, "est": 1500}),
+        ("p2p_hand_read_96", 96, 12, {"tiers": "t", "cap_s": 3600, "est": 1500}),
+        ("p2p_shake_read_64", 64, 8, {"tiers": "t", "cap_s": 3600, "est": 600}),
+        ("p2p_peer_addrs_read_48", 48, 12, {"tiers": "t", "cap_s": 3600, "est": 1500}),
         ("p2p_locator_read_40", 40, 8, {}),
-        ("p2p_peer_error_read_24", 24, 8, {}),
+        ("p2p_peer_error_read_24", 24, 8, {"tiers": "t", "cap_s": 3600, "est": 600}),
         ("p2p_ping_read_16", 16, 6, {}),
         ("p2p_ban_reason_read_4", 4, 6, {}),
         ("p2p_segment_request_read_41", 41, 6, {}),
         ("p2p_txhashset_request_read_40", 40, 6, {}),
-        ("bitmap_segment_read_48", 48, 8, {}),
+        ("bitmap_segment_read_48", 48, 8, {"tiers": "t", "cap_s": 3600, "est": 1500}),
     ]:
         o = ob("c11::" + h, extra.get("tiers", "qt"), u, "decoder on any %d bytes: no panic, bounded allocation, terminates" % L,
                "L=%d, every byte symbolic (count/length fields at full width), protocol version in {1,2,3,1000}" % L,
-               loops={"memcpy": L + 4, "memcmp": 70, "copy_from_slice": L + 4, "read_exact": L + 4},
+               loops={"memcpy": L + 4, "memcmp": 70, "copy_from_slice": L + 4, "read_exact": L + 4, "utf8": L + 4, "memset": L + 40, "read_empty_bytes": 18},
                est=extra.get("est", 90), allow_unsat=["some input decodes", "some input is refused"])
         if "cap_s" in extra:
             o["cap_s"] = extra["cap_s"]
         obs.append(o)
+    for case, what, tiers in [(3, "MAX_PROOF_SIZE", "qt"), (4, "MAX_PROOF_SIZE+1", "qt"), (5, "MAX_PROOF_SIZE+8", "t"), (2, "MAX_PROOF_SIZE-1", "t"), (6, "100000", "t"), (7, "100001", "t"), (0, "0", "t")]:
+        obs.append(ob("c11::rangeproof_read_length_boundaries", tiers, 12, "RangeProof::read with its length prefix at a boundary value: no panic, decoded length within the proof buffer",
+                      "length prefix = %s, following %d bytes symbolic" % (what, 683), env={"VH_CASE": case}, tag="_case%d" % case, est=200, cap_s=1200,
+                      loops={"memcpy": 700, "memcmp": 70, "memset": 740, "copy_from_slice": 700}, allow_unsat=["a maximal proof decodes"]))
     for h, b in [
         ("segment_validate_h0_s1_empty", "height 0, mmr_size 1, idx 0..=4, 0 hashes/0 leaves/0 proof hashes"),
         ("segment_validate_h0_s4", "height 0, mmr_size 4, idx 0..=4, 0/1/2"),
@@ -108,9 +125,9 @@ def c11():
         ("segment_validate_h2_s10_empty", "height 2, mmr_size 10, idx 0..=4, 0/0/0"),
         ("segment_validate_h2_s11", "height 2, mmr_size 11, idx 0..=4, 1/3/1"),
     ]:
-        obs.append(ob("c11::" + h, "qt", 20,
+        obs.append(ob("c11::" + h, "t" if h in ("segment_validate_h2_s11", "segment_validate_h1_s7") else "qt", 20,
                       "Segment<OutputIdentifier>::validate on a decoded-shape segment with arbitrary contents never panics",
-                      b, unwindset={"memcmp.0": 40}))
+                      b, unwindset={"memcmp.0": 40}, est=300))
     return {
         "obligations": obs,
         "stubs": BASE_STUBS + [
@@ -127,17 +144,17 @@ def c04():
     obs = []
     CTN = {0: "AutomatedTesting", 1: "UserTesting", 2: "Testnet", 3: "Mainnet"}
     # DMA retarget, full window
-    for ct, tiers in [(3, "qt"), (0, "t"), (2, "t"), (1, "t")]:
+    for ct, tiers in [(3, "t"), (0, "t"), (2, "t"), (1, "t")]:
         obs.append(ob("c04::dma_total_floor", tiers, 64,
                       "next_dma_difficulty is total (no overflow/underflow/div-by-zero/index panic), >= MIN_DMA_DIFFICULTY, scaling >= MIN_AR_SCALE",
                       "chain %s; full 61-header window: every timestamp (strictly decreasing, gaps < 2^20 s), difficulty in [1,2^48), scaling < 2^24, secondary flag symbolic; height < 2^40" % CTN[ct],
-                      env={"VH_CT": ct, "VH_WIN": 61}, tag="_ct%d_w61" % ct, est=450, cap_s=1500 if "q" in tiers else 3600, mem_est_gb=14))
+                      env={"VH_CT": ct, "VH_WIN": 61}, tag="_ct%d_w61" % ct, est=600, cap_s=3600, mem_est_gb=14))
     # short windows (just after genesis): padding path
     for win, tiers in [(1, "qt"), (2, "t"), (7, "t"), (30, "t"), (60, "t")]:
         obs.append(ob("c04::dma_total_floor", tiers, 64,
                       "same, window shorter than required (pre-genesis padding never underflows)",
                       "chain Mainnet; %d real headers" % win,
-                      env={"VH_CT": 3, "VH_WIN": win}, tag="_ct3_w%d" % win, est=300, cap_s=1500 if "q" in tiers else 3600, mem_est_gb=12))
+                      env={"VH_CT": 3, "VH_WIN": win}, tag="_ct3_w%d" % win, est=400, cap_s=700 if "q" in tiers else 3600, mem_est_gb=12))
     for ct in (3, 0, 2, 1):
         t = "qt" if ct in (3, 0) else "t"
         obs.append(ob("c04::wtema_total_floor", t, 4, "next_wtema_difficulty total, >= min_wtema, scaling 0",
@@ -173,7 +190,7 @@ def c04():
 def c05():
     obs = []
     # family D: proof serialisation, one query per (chain type -> proof size, edge_bits)
-    for ct, eb, tiers in [(0, 10, "qt"), (0, 29, "qt"), (0, 31, "qt"), (0, 63, "qt"), (0, 1, "t"), (0, 17, "t"), (0, 32, "t"), (0, 48, "t"), (3, 2, "qt"), (3, 3, "qt"), (3, 29, "qt"), (3, 31, "qt"), (3, 32, "t")]:
+    for ct, eb, tiers in [(0, 10, "qt"), (0, 29, "qt"), (0, 31, "qt"), (0, 63, "qt"), (0, 1, "t"), (0, 17, "t"), (0, 32, "t"), (0, 48, "t"), (3, 2, "qt"), (3, 3, "qt"), (3, 29, "t"), (3, 31, "t")]:
         n = 8 if ct == 0 else 42
         b = "proof size %d, edge_bits %d" % (n, eb)
         e = {"VH_CT": ct, "VH_EB": eb}
@@ -185,13 +202,11 @@ def c05():
                       allow_unsat=["refused (non-zero padding)"] if (n * eb) % 8 == 0 else []))
         if n == 8:
             obs.append(ob("c05::proof_decode_injective", tiers, u, "two accepted encodings of equal proofs are equal byte strings (canonical form)", b + ", two symbolic buffers", env=e, tag=tag, est=240, loops=L, cap_s=900 if "q" in tiers else 3600))
-    obs.append(ob("c11::pow_proof_read_edge_bits_sweep", "qt", 12, "edge_bits 0 and 64..=255 refused whatever follows; boundary edge_bits never panic", "first byte swept over {0,1,7,8,10,63,64,128,255}, 71 symbolic bytes, proof size 8", est=200,
-                  loops={"memcpy": 80, "memcmp": 80}, allow_unsat=["some input decodes", "some input is refused"]))
     obs.append(ob("c05::pow_variant_selection", "qt", 4, "create_pow_context picks cuckatoo unless a production chain asks for <= 29 edge bits, then the cuckaroo variant of header_version(height), none after HF4",
                   "every chain type, height < 2^32, every edge_bits byte", est=60, replay="model"))
     return {
         "obligations": obs,
-        "stubs": BASE_STUBS + ["E12 allocation ghost (bad-edge-bits obligation)", "variant constructors new_cuck*_ctx -> tagging stubs (selection obligation only)"],
+        "stubs": BASE_STUBS + ["variant constructors new_cuck*_ctx -> tagging stubs (selection obligation only)"],
         "explanation": "Bounded proof over Proof::{read, write, pack_nonces}, pack_bits, read_number, extract_bits and global::create_pow_context.",
         "bounds": "edge_bits and proof size concrete per query; nonces / bytes symbolic",
         "outside": "cycle verification against the graph definitions (family A: measured 20 min per variant at n=4, not registered yet), siphash equivalence, solver (find_cycles), lean miner",
@@ -203,7 +218,7 @@ def c10():
     obs = [
         ob("c10::kernel_features_roundtrip", "qt", 20, "KernelFeatures: decode(encode(x,v),v)==x, exact length, for every variant/fee/height and v in {1,2,3,1000}", "full width on every field", est=200),
         ob("c10::kernel_features_canonical", "qt", 20, "KernelFeatures: any accepted 17-byte string re-encodes to the consumed bytes; unknown tags, non-zero v1 padding, NRD-while-disabled refused", "all 2^136 strings x 4 versions x NRD flag", est=100),
-        ob("c10::txkernel_roundtrip_and_hash", "qt", 8, "TxKernel round trip field-wise; identity hash independent of protocol version", "all kernels; hashing under the deterministic mixer E4a", est=300, unwindset={"memcmp.0": 70}),
+        ob("c10::txkernel_roundtrip_and_hash", "t", 8, "TxKernel round trip field-wise; identity hash independent of protocol version", "all kernels; hashing under the deterministic mixer E4a", est=300, unwindset={"memcmp.0": 70}),
         ob("c10::input_and_output_identifier_roundtrip", "qt", 8, "Input / OutputIdentifier round trip at every version", "all values", est=60, unwindset={"memcmp.0": 40}),
         ob("c10::input_canonical", "qt", 8, "Input: accepted bytes re-encode identically; unknown feature byte refused", "all 34-byte strings", est=60, unwindset={"memcmp.0": 40}),
     ]
@@ -221,8 +236,8 @@ def c12():
     obs = [
         ob("c12::cut_through_1_2", "qt", 6, "cut_through: remaining = union minus exactly the matched pairs (multiset), slices sorted, no index panic", "1 input + 2 outputs, commitments differ in one symbolic byte", est=120, unwindset={"memcmp.0": 40}),
         ob("c12::cut_through_2_1", "qt", 6, "same", "2 inputs + 1 output", est=120, unwindset={"memcmp.0": 40}),
-        ob("c12::cut_through_2_2", "qt", 6, "same", "2 inputs + 2 outputs", est=700, cap_s=1800, unwindset={"memcmp.0": 40}, mem_est_gb=10),
-        ob("c12::cut_through_err_iff_duplicate_2_2", "qt", 6, "Err(CutThrough) iff a duplicate survives", "2 + 2", est=700, cap_s=1800, unwindset={"memcmp.0": 40}, mem_est_gb=10),
+        ob("c12::cut_through_2_2", "t", 6, "same", "2 inputs + 2 outputs", est=700, cap_s=3600, unwindset={"memcmp.0": 40}, mem_est_gb=14),
+        ob("c12::cut_through_err_iff_duplicate_2_2", "qt", 6, "Err(CutThrough) iff a duplicate survives", "2 + 2", est=500, cap_s=750, unwindset={"memcmp.0": 40}, mem_est_gb=13),
         ob("c12::cut_through_3_3", "t", 8, "same", "3 inputs + 3 outputs", est=3000, cap_s=5400, unwindset={"memcmp.0": 40}, mem_est_gb=20),
     ]
     return {
@@ -244,16 +259,16 @@ def c01():
     L = {"zeroize": 36, "memcmp": 70}
     obs = [
         ob("c01::kernel_sums_iff_equation_1_2_1", "qt", 5, "Committed::verify_kernel_sums == Ok  <=>  sum(outputs) - sum(inputs) + overage == sum(kernel excesses) + offset (both components)",
-           "1 input / 2 outputs / 1 kernel; every commitment any model element; |overage| < 2^40; any offset", est=200, loops=L, replay="model", cap_s=1200),
+           "1 input / 2 outputs / 1 kernel; every commitment any model element; |overage| < 2^40; any offset", est=200, loops=L, replay="model"),
     ]
     for (ni, no, nk, tiers) in [(1, 0, 1, "qt"), (0, 1, 1, "qt"), (1, 1, 2, "qt"), (2, 2, 2, "t")]:
         obs.append(ob("c01::body_validate_consults_oracles", tiers, 5, "TransactionBody::validate == Ok => every kernel signature and every range proof was handed to the verifier and is valid",
            "%d inputs / %d outputs / %d kernels; symbolic commitments, kernel variants, oracle bits" % (ni, no, nk),
-           env={"VH_NIN": ni, "VH_NOUT": no, "VH_NK": nk}, tag="_%d_%d_%d" % (ni, no, nk), est=200, loops=L, replay="model", cap_s=1200, mem_est_gb=8))
+           env={"VH_NIN": ni, "VH_NOUT": no, "VH_NK": nk}, tag="_%d_%d_%d" % (ni, no, nk), est=200, loops=L, replay="model", mem_est_gb=10))
     # shapes with an empty input or output vector are not registered for this harness: CBMC reports
     # "dereference failure: pointer invalid" inside Vec<Commitment>::retain/as_slice on them (an
     # artefact of the empty-vector model under the E7 stubs that is not yet understood; see DESIGN A.4)
-    for (ni, no, nk, tiers, est) in [(1, 1, 1, "qt", 700), (1, 2, 1, "t", 900), (1, 1, 2, "t", 900), (2, 2, 1, "t", 1500)]:
+    for (ni, no, nk, tiers, est) in [(1, 1, 1, "t", 700), (1, 2, 1, "t", 900), (1, 1, 2, "t", 900), (2, 2, 1, "t", 1500)]:
         obs.append(ob("c01::tx_validate_sound", tiers, 5, "Transaction::validate == Ok => balance equation with the fees as only extra value AND every kernel signature / range proof consulted and valid AND no coinbase output or kernel",
            "%d inputs / %d outputs / %d kernels; symbolic commitments, feature variants, fee < 2^40, shift < 16, coinbase flags, oracle bits, offset" % (ni, no, nk),
            env={"VH_NIN": ni, "VH_NOUT": no, "VH_NK": nk}, tag="_%d_%d_%d" % (ni, no, nk), est=est, loops=L, replay="model", cap_s=1500 if "q" in tiers else 3600, mem_est_gb=12))
@@ -274,7 +289,7 @@ def c13():
     ] + [
         ob("c13::block_lock_heights", "qt", 6, "Block::validate_read never accepts a block holding a height-locked kernel above the block height; the lock-height error is exact; boundaries at / one above covered",
            "2 kernels, shape %s (bit i set = kernel i height-locked with any u64 lock height, else plain), any block height" % sh,
-           env={"VH_SHAPE": sh}, tag="_shape%s" % sh, est=200, loops={"memcmp": 70, "zeroize": 36}, cap_s=1200)
+           env={"VH_SHAPE": sh}, tag="_shape%s" % sh, est=200, loops={"memcmp": 70, "zeroize": 36})
         for sh in ("3", "1", "2")
     ] + [
         ob("c13::nrd_relative_height_range", "qt", 4, "NRDRelativeHeight (constructor and decoder) accepts exactly 1..=WEEK_HEIGHT", "every u64 / u16", est=20),
@@ -293,9 +308,9 @@ def c13():
 def c14():
     obs = [
         ob("c14::pool_refuses_low_fee", "qt", 6, "TransactionPool::add_to_pool refuses (LowFeeTransaction) every tx whose shifted fee is below weight*accept_fee_base; weight / shifted_fee / accept_fee formulas",
-           "1-in/2-out/1-kernel tx, fee < 2^40, shift < 16, base < 2^40, plain or height-locked kernel, stem or fluff, empty pools", est=120, loops={"memcmp": 70, "zeroize": 36}, cap_s=1200),
+           "1-in/2-out/1-kernel tx, fee < 2^40, shift < 16, base < 2^40, plain or height-locked kernel, stem or fluff, empty pools", est=120, loops={"memcmp": 70, "zeroize": 36}),
         ob("c14::pool_refuses_nrd_unless_enabled_and_hf3", "qt", 6, "add_to_pool refuses NRD kernels while the feature is off or the header version is below 4",
-           "every header version (u16), flag on/off", est=120, loops={"memcmp": 70, "zeroize": 36}, cap_s=1200),
+           "every header version (u16), flag on/off", est=120, loops={"memcmp": 70, "zeroize": 36}),
         ob("c14::fee_and_weight_arithmetic", "qt", 6, "body fee = sum, fee_shift = max, shifted fee = sum >> max over fee-carrying kernels; weight_by_iok = i + 21 o + 3 k saturating",
            "3 kernels (plain, coinbase, height-locked) with symbolic fee fields; counts full width", est=60),
     ]
@@ -313,7 +328,7 @@ def c19():
     obs = [
         ob("c19::frame_header_limits", "qt", 6, "MsgHeaderWrapper::read: accepted => network magic, type/length are the wire fields, length <= 4x the per-type limit (default limit for unknown types); refused only for wrong magic or over-limit length; no allocation",
            "all 2^88 frame headers x 4 chain types", est=60),
-        ob("c19::read_message_wrong_type_refused", "qt", 14, "read_message::<Ping> over an 11-byte stream: wrong magic refused, other type => error, never a panic or body allocation beyond the bound",
+        ob("c19::read_message_wrong_type_refused", "t", 14, "read_message::<Ping> over an 11-byte stream: wrong magic refused, other type => error, never a panic or body allocation beyond the bound",
            "all 11-byte streams, Mainnet", est=120),
     ]
     return {
@@ -328,15 +343,15 @@ def c19():
 
 def c16():
     obs = []
-    HL = {"memcmp": 40, "compress": 42}
+    HL = {"memcmp": 40, "compress": 66}
     for n, h, idx, tiers in [(3, 1, 0, "qt"), (3, 1, 1, "qt"), (3, 0, 2, "qt"), (3, 1, 2, "qt"), (4, 1, 1, "t"), (5, 2, 0, "t"), (5, 1, 2, "t")]:
         obs.append(ob("c16::segment_complete", tiers, 8,
                       "Segment::from_pmmr exists iff its first leaf is inside the mmr; what it produces validates against the root (validate) and under a merged root (validate_with)",
                       "%d leaves (symbolic contents), segment height %d index %d, non-prunable" % (n, h, idx),
-                      env={"VH_NLEAF": n, "VH_SEGH": h, "VH_SEGIDX": idx}, tag="_n%d_h%d_i%d" % (n, h, idx), est=300, loops=HL, cap_s=1200 if "q" in tiers else 3600))
-    for n, h, idx, tiers in [(3, 1, 0, "qt"), (3, 1, 1, "t"), (4, 1, 1, "t"), (5, 2, 0, "t")]:
+                      env={"VH_NLEAF": n, "VH_SEGH": h, "VH_SEGIDX": idx}, tag="_n%d_h%d_i%d" % (n, h, idx), est=300, loops=HL, allow_unsat=["segment produced"] if idx * (1 << h) >= n else []))
+    for n, h, idx, tiers in [(2, 0, 0, "t"), (3, 1, 0, "t"), (3, 1, 1, "t")]:
         obs.append(ob("c16::segment_sound", tiers, 8,
-                      "under the ideal hash: changing a leaf's data or position, a proof hash, dropping a leaf or proof hash, or the identifier makes validate fail",
+                      "under the ideal hash: changing a leaf's data or position, a proof hash, dropping a leaf or proof hash, or the identifier makes validate fail  [thorough-tier ATTEMPT: did not finish in 30 min at 3 leaves]",
                       "%d leaves, segment height %d index %d, symbolic single corruption" % (n, h, idx),
                       env={"VH_NLEAF": n, "VH_SEGH": h, "VH_SEGIDX": idx}, tag="_n%d_h%d_i%d" % (n, h, idx), est=400, loops=HL, replay="model", cap_s=1200 if "q" in tiers else 3600))
     return {
